@@ -74,6 +74,16 @@ def match_types(writer_type, reader_type, named_schemas):
     return False
 
 
+def _same_type(w_schema, r_schema):
+    w_type = extract_record_type(w_schema)
+    r_type = extract_record_type(r_schema)
+    if w_type == "error":
+        w_type = "record"
+    if r_type == "error":
+        r_type = "record"
+    return w_type == r_type
+
+
 def match_schemas(w_schema, r_schema, named_schemas):
     error_msg = f"Schema mismatch: {w_schema} is not {r_schema}"
     if isinstance(w_schema, list):
@@ -81,8 +91,13 @@ def match_schemas(w_schema, r_schema, named_schemas):
         # correct schema is known
         return r_schema
     elif isinstance(r_schema, list):
-        # If the reader is a union, ensure one of the new schemas is the same
-        # as the writer
+        # If the reader is a union, the first schema of the same type as the
+        # writer wins; only then schemas reachable by promotion are considered
+        for schema in r_schema:
+            if _same_type(w_schema, schema) and match_types(
+                w_schema, schema, named_schemas
+            ):
+                return schema
         for schema in r_schema:
             if match_types(w_schema, schema, named_schemas):
                 return schema
@@ -424,7 +439,10 @@ def read_union(
             else:
                 raise SchemaResolutionError(msg)
         else:
-            for schema in reader_schema:
+            candidates = [
+                schema for schema in reader_schema if _same_type(idx_schema, schema)
+            ] + list(reader_schema)
+            for schema in candidates:
                 if match_types(idx_schema, schema, named_schemas):
                     idx_reader_schema = schema
                     result = read_data(
